@@ -83,6 +83,10 @@ fn try_variant<C: MlsConfig>(
     let mut g = recv.clone();
     let before = comps(&g);
     let r = std::panic::catch_unwind(std::panic::AssertUnwindSafe(|| g.process_incoming_message(msg)));
+    let rej_class: Option<String> = match &r {
+        Ok(Err(e)) => Some(err_class(e)),
+        _ => None,
+    };
     match r {
         Err(_) => {
             out.fail("C03", format!("{rname} panics while processing {label}"));
@@ -115,8 +119,10 @@ fn try_variant<C: MlsConfig>(
     let after = comps(&g);
     let ch = World::<C>::changed(&before, &after);
     if !ch.is_empty() {
-        let f8 = ch == ["secret_tree"] && is_private(variant);
-        out.fail("C04", format!("{}{rname} rejected {label} but its state changed in {ch:?}", if f8 { "[F8] " } else { "" }));
+        // known finding F8: the ciphertext is corrupted behind the sender-data sample, the generation's key is taken out of the
+        // ratchet and the AEAD open then fails; any other rejection of a private message that changes the secret tree is new
+        let f8 = ch == ["secret_tree"] && is_private(variant) && rej_class.as_deref() == Some("CryptoProviderError");
+        out.fail("C04", format!("{}{rname} rejected {label} ({}) but its state changed in {ch:?}", if f8 { "[F8] " } else { "" }, rej_class.clone().unwrap_or_default()));
     }
     if expect_genuine_ok {
         let r2 = std::panic::catch_unwind(std::panic::AssertUnwindSafe(|| g.process_incoming_message(genuine.clone())));
@@ -135,7 +141,7 @@ fn try_variant<C: MlsConfig>(
                 }
             }
             Ok(Err(e)) => {
-                let f8 = ch == ["secret_tree"] && is_private(variant) && err_class(&e) == "KeyMissing";
+                let f8 = ch == ["secret_tree"] && is_private(variant) && rej_class.as_deref() == Some("CryptoProviderError") && err_class(&e) == "KeyMissing";
                 out.fail("C04", format!("{}after rejecting {label}, {rname} refuses the genuine message: {}", if f8 { "[F8] " } else { "" }, err_class(&e)))
             }
             Err(_) => out.fail("C03", format!("{rname} panics on the genuine message after {label}")),
@@ -619,7 +625,8 @@ pub fn run(o: &Opts, focus: &str) -> i32 {
     println!("cover {}", out.cover.iter().cloned().collect::<Vec<_>>().join(";"));
     println!("other_property_failures {}", out.fails.len() - rel.len());
     println!("oracle_failures {}", rel.len());
-    std::fs::write(format!("{dir}/{stem}.failures"), rel.iter().map(|(p, w)| format!("{p}: {w}")).collect::<Vec<_>>().join("\n")).unwrap();
+    // (one failure per line, every line terminated: the fault sweep of the C04 check appends to this file)
+    std::fs::write(format!("{dir}/{stem}.failures"), rel.iter().map(|(p, w)| format!("{p}: {w}\n")).collect::<String>()).unwrap();
     std::fs::write(format!("{dir}/{stem}.allfailures"), out.fails.iter().map(|(p, w)| format!("{p}: {w}")).collect::<Vec<_>>().join("\n")).unwrap();
     std::fs::write(format!("{dir}/{stem}.samples"), out.samples.join("\n")).unwrap();
     let mut qa = crate::util::QA::create(&dir, &stem);
